@@ -200,6 +200,7 @@ TReopen ==
     /\ l <= Len(Log)
     /\ LET r == Log[l] IN
        /\ r.e = "reopen" /\ r.out = "ok" /\ r.loaded = r.want
+       /\ (Has(r, "csame") => r.csame)                                        \* C16: close + load changed no stored row
        /\ Unchanged(r)                                                       \* C10
        /\ ObsOK(r, ts, {}, fam, pinfo) = TRUE
     /\ ~probing
